@@ -10,7 +10,7 @@ from .. import pb
 NAMING = True
 ID = "C05"
 ORACLE = "Oracle.C05"
-PROPS = "Props/C05.v"
+PROPS = ["Props/C05.v", "Props/TieGen.v"]
 LEVEL = "proof"
 SHARD = 110
 CODES = {
